@@ -361,7 +361,17 @@ impl<'a> Interp<'a> {
             1 => {}
             // the first surplus item is the one at fault (C03: the most specific span, never none when
             // there are tokens to point at)
-            _ => return Err(vec![leaf(LeafKind::TooMany, Where::Item(items[1].id), "")]),
+            _ => {
+                // ... and what is wrong inside the items is still a mistake of its own (C02: none is dropped
+                // because another was found first): each item is read as if it were the only one
+                let mut errors = vec![leaf(LeafKind::TooMany, Where::Item(items[1].id), "")];
+                for it in items {
+                    if let Err(l) = self.enum_from_list(r, std::slice::from_ref(it)) {
+                        errors.extend(l);
+                    }
+                }
+                return Err(errors);
+            }
         }
         let it = &items[0];
         // everything found from here on concerns the one nested item: that item is the offending
